@@ -35,6 +35,10 @@ def gen_cases(rnd, n, lang):
         has_header = rnd.random() < 0.7
         join = rnd.random() < 0.3
         ih = ['id', rnd.choice(['name two', 'name two', 'ta\tb', 'back\\slash']), 'n3'][:rnd.choice([2, 3])]     # a TAB / backslash inside a column name: written escaped in a["…"]
+        if rnd.random() < 0.15:
+            # the input is itself the output of an earlier query: its columns are CALLED col1, col2, … — a name that is literally `colK` must
+            # not disturb the positional name of a later unnamed item
+            ih = rnd.choice([['col1', 'col2', 'col3'], ['col2', 'col1', 'col3'], ['col3', 'col2']])
         jh = ['id', 'val']
         A = [['1', 'x', 'p'][:len(ih)], ['2', 'y', 'q'][:len(ih)], ['1', 'x', 'p'][:len(ih)]]
         # the join table may be empty or have no partner at all: under LEFT JOIN the null record must still be as wide as the join header
@@ -96,7 +100,7 @@ def gen_cases(rnd, n, lang):
                 infos.append(['named', v])
                 texts.append(v)
             elif r < 0.65:
-                nm = rnd.choice(['foo', 'Bar_1', 'x'])
+                nm = rnd.choice(['foo', 'Bar_1', 'x', 'col2', 'col3'])
                 infos.append(['alias', nm])
                 texts.append('%s %s %s' % (rnd.choice(other + ['a1', 'NR']), rnd.choice(['as', 'AS']), nm))
             elif r < 0.75:
@@ -324,6 +328,7 @@ def run(res, tier, seed):
     # how an item's TEXT becomes a column info: the rbql-js span parser is modelled (Model/Translate.lean) and tied on both ports
     import translate_corr
     translate_corr.run_leg(res, tier, seed, {'infos', 'select'})
+    translate_corr.pyast_leg(res, tier, seed)
 
 
 def replay(res, path):
